@@ -200,6 +200,10 @@ def record_and_layout(draw, max_payload=3000, allow_encrypted=True, min_payload=
                 b -= lim
             fixed.append(b)
         bodies = fixed
+        if draw(st.integers(0, 5)) == 0:
+            # a segment that carries no payload at all (header, pad bytes, trailer): anywhere in the chain
+            for _ in range(draw(st.integers(1, 2))):
+                bodies.insert(draw(st.integers(0, len(bodies))), 0)
     seed = draw(st.integers(0, 255))
     head = draw(st.binary(max_size=min(n, 8)))
     payload = head + bytes(((seed + 3 * i + (i >> 8) * 11) & 0xFF) for i in range(n - len(head)))
